@@ -167,3 +167,18 @@ def check(run, views, tier):
             run.ob("R-SCHEMETABLE", "scheme %s handled with and without explicit port" % s, seen.get(s) == {True, False},
                    "paths found for explicit-port cases %s" % sorted(seen.get(s, [])), site(b))
         run.floor("R-SCHEMETABLE", len(paths), 5, "paths through " + FN)
+        # the URL is computed from the target the caller configured: nobody rewrites the stored uri
+        from .c11 import check_config_writers
+        check_config_writers(run, F)
+        # and both clients feed exactly that uri to the mapping (R-CONFIG-LIVE uri clause of C11)
+        from .c11 import ASYNC, BLOCK, cfg_field as _cf
+        from ..symx import all_calls as _ac
+        for fn in (ASYNC, BLOCK):
+            sb = F.body(fn)
+            if sb is None:
+                continue
+            for p in paths_of(sb):
+                for t, _c in _ac(p):
+                    if is_call(t, FN):
+                        run.ob("R-SCHEMETABLE", "%s maps self.0.uri" % fn.split("::")[-2], _cf(t[2][0], "uri"), "maps %s" % tshow(t[2][0])[:80], site(sb, t[3]),
+                               key="R-SCHEMETABLE|%s|maps-configured-uri" % fn)
